@@ -565,7 +565,7 @@ func (ctx Ctx) methodExpr(call *ast.CallExpr) coq.Expr {
 	if ctx.info.Types[call.Fun].IsType() {
 		// string -> []byte conversions are handled specially
 		if f, ok := call.Fun.(*ast.ArrayType); ok {
-			if f.Len == nil && isIdent(f.Elt, "byte") {
+			if f.Len == nil && ctx.isBuiltin(f.Elt, "byte") {
 				arg := args[0]
 				if isString(ctx.typeOf(arg)) {
 					return ctx.newCoqCall("StringToBytes", args)
@@ -573,7 +573,7 @@ func (ctx Ctx) methodExpr(call *ast.CallExpr) coq.Expr {
 			}
 		}
 		// []byte -> string are handled specially
-		if f, ok := call.Fun.(*ast.Ident); ok && f.Name == "string" {
+		if f, ok := call.Fun.(*ast.Ident); ok && ctx.isBuiltin(f, "string") {
 			arg := args[0]
 			if isString(ctx.typeOf(arg).Underlying()) {
 				return ctx.expr(args[0])
@@ -732,19 +732,19 @@ func (ctx Ctx) copyExpr(n ast.Node, dst ast.Expr, src ast.Expr) coq.Expr {
 }
 
 func (ctx Ctx) callExpr(s *ast.CallExpr) coq.Expr {
-	if isIdent(s.Fun, "make") {
+	if ctx.isBuiltin(s.Fun, "make") {
 		return ctx.makeExpr(s.Args)
 	}
-	if isIdent(s.Fun, "new") {
+	if ctx.isBuiltin(s.Fun, "new") {
 		return ctx.newExpr(s.Args[0])
 	}
-	if isIdent(s.Fun, "len") {
+	if ctx.isBuiltin(s.Fun, "len") {
 		return ctx.lenExpr(s)
 	}
-	if isIdent(s.Fun, "cap") {
+	if ctx.isBuiltin(s.Fun, "cap") {
 		return ctx.capExpr(s)
 	}
-	if isIdent(s.Fun, "append") {
+	if ctx.isBuiltin(s.Fun, "append") {
 		if len(s.Args) != 2 {
 			ctx.unsupported(s, "append must have exactly one element or slice to add")
 		}
@@ -761,25 +761,25 @@ func (ctx Ctx) callExpr(s *ast.CallExpr) coq.Expr {
 			ctx.expr(s.Args[0]),
 			ctx.expr(s.Args[1]))
 	}
-	if isIdent(s.Fun, "copy") {
+	if ctx.isBuiltin(s.Fun, "copy") {
 		return ctx.copyExpr(s, s.Args[0], s.Args[1])
 	}
-	if isIdent(s.Fun, "delete") {
+	if ctx.isBuiltin(s.Fun, "delete") {
 		if _, ok := ctx.typeOf(s.Args[0]).(*types.Map); !ok {
 			ctx.unsupported(s, "delete on non-map")
 		}
 		return coq.NewCallExpr(coq.GallinaIdent("MapDelete"), ctx.expr(s.Args[0]), ctx.expr(s.Args[1]))
 	}
-	if isIdent(s.Fun, "uint64") {
+	if ctx.isBuiltin(s.Fun, "uint64") {
 		return ctx.integerConversion(s, s.Args[0], 64)
 	}
-	if isIdent(s.Fun, "uint32") {
+	if ctx.isBuiltin(s.Fun, "uint32") {
 		return ctx.integerConversion(s, s.Args[0], 32)
 	}
-	if isIdent(s.Fun, "uint8") {
+	if ctx.isBuiltin(s.Fun, "uint8") {
 		return ctx.integerConversion(s, s.Args[0], 8)
 	}
-	if isIdent(s.Fun, "panic") {
+	if ctx.isBuiltin(s.Fun, "panic") {
 		msg := "oops"
 		if e, ok := s.Args[0].(*ast.BasicLit); ok {
 			if e.Kind == token.STRING {
@@ -1121,6 +1121,13 @@ func (ctx Ctx) coqRecurFunc(fullFuncName string, e *ast.Ident) coq.Expr {
 func (ctx Ctx) function(s *ast.Ident) coq.Expr {
 	ctx.dep.addDep(s.Name)
 	return ctx.coqRecurFunc(s.Name, s)
+}
+
+// isBuiltin reports whether e is the identifier name and refers to Go's
+// predeclared object of that name (rather than a user definition shadowing it)
+func (ctx Ctx) isBuiltin(e ast.Expr, name string) bool {
+	id, ok := e.(*ast.Ident)
+	return ok && id.Name == name && ctx.goBuiltin(id)
 }
 
 func (ctx Ctx) goBuiltin(e *ast.Ident) bool {
